@@ -25,11 +25,14 @@ def value(rnd, style):
         return rnd.randint(0, 8) / 8.0
     if style == 'negative':
         return -rnd.randint(1, 40) / 4.0
+    if style == 'large':  # big magnitudes that differ by far more than any absolute tolerance, yet by a tiny fraction of themselves
+        base = rnd.choice([1.0e6, 5.0e6, 412000.0, 3.0e7]) * rnd.choice([1, 1, 1, -1])
+        return base + rnd.choice([0, 0, 0.75, 1.0, 2.0, -1.0, 0.001, 37.0, 2.0e-6])
     return rnd.uniform(-10, 10)
 
 
 def pick_style(rnd):
-    return rnd.choices(['grid', 'posgrid', 'near', 'real', 'unit', 'negative'], [32, 18, 18, 14, 9, 9])[0]
+    return rnd.choices(['grid', 'posgrid', 'near', 'real', 'unit', 'negative', 'large'], [30, 17, 17, 13, 8, 9, 6])[0]
 
 
 def gen_alternatives(rnd, crit_ids, n=None, style=None, extra_value_prob=0.0):
@@ -97,8 +100,18 @@ def gen_chose(rnd, alts, all_prob=0.5):
 
 
 def weights_for(rnd, crit_ids, style=None):
-    style = style or rnd.choice(['mixed', 'mixed', 'equal', 'ties', 'ones'])
+    style = style or rnd.choice(['mixed', 'mixed', 'mixed', 'equal', 'ties', 'ones', 'close', 'large'])
     w = {}
+    if style == 'close':   # pairwise distinct, yet within 1e-6 / 1e-7 of each other (and one float-noise pair: 0.1+0.2 vs 0.3)
+        base = rnd.choice([0.3, 0.4444444, 1.0, 2.5])
+        offs = rnd.sample([0.0, 3e-7, -3e-7, 8e-7, 4e-8, 0.1 + 0.2 - 0.3, 1.5e-6], min(7, len(crit_ids)))
+        for i, c in enumerate(crit_ids):
+            w[c] = base + (offs[i] if i < len(offs) else 0.01 * i)
+        return w
+    if style == 'large':
+        for i, c in enumerate(crit_ids):
+            w[c] = 4.0e6 + rnd.choice([0.0, 3.0, 1.0, -2.0, 1000.0])
+        return w
     for c in crit_ids:
         if style == 'equal':
             w[c] = 2.0
@@ -281,7 +294,11 @@ def heuristic_request(rnd, method=None, n_alts=None, n_crits=None, distinct_weig
         if dr:
             mp['drawResolution'] = dr
     elif method == 'aspectEliminationHeuristic':
-        if distinct_weights or rnd.random() < 0.8:
+        r = rnd.random()
+        if r < 0.15:
+            # pairwise distinct weights that lie within 1e-6 / 1e-7 of each other: "from the heaviest weight down" is still decided
+            mp['weights'] = weights_for(rnd, cids, 'close')
+        elif distinct_weights or r < 0.82:
             ws = rnd.sample([0.25, 0.5, 1.0, 1.5, 2.0, 3.0, 0.125, 5.0], len(cids))
             mp['weights'] = dict(zip(cids, ws))
         else:
